@@ -51,7 +51,7 @@ pub enum TapEvent {
 
 #[derive(Debug, Default)]
 pub struct TapLog {
-    pub events: Vec<(String, TapEvent)>,
+    pub events: Vec<(u64, String, TapEvent)>,
     /// completed (non-pending) operations per label
     pub ops: std::collections::HashMap<String, u64>,
 }
@@ -90,7 +90,7 @@ impl Tap {
 
     fn rec(&self, ev: TapEvent) {
         if let Some(log) = &self.log {
-            log.borrow_mut().events.push((self.label.clone(), ev));
+            log.borrow_mut().events.push((crate::seq::next(), self.label.clone(), ev));
         }
     }
 
